@@ -61,6 +61,10 @@ META = {
                 text="contracts: part proved, part bounded. Proved: the traced algorithms (preprocessing chain, EOF, ComplexEOF, CPCCA, EOFRotator) run with fresh sample/feature names and return results carrying only those names and 'mode'; no default dimension name occurs as a literal / attribute / keyword inside the method bodies of 22 model, cross-set, rotator, bootstrapper and preprocessing modules; for every permutation of the input dims (3 structure classes) the chain hands the model the same matrix (values per label, sample coordinate) and restores the order on the way back. Bounded: singular values, components at each label and scores under transposition, feature permutation, Dataset / list splitting, custom names and sample permutation for 11 model classes.",
                 note="assumed: parametricity in names (collisions with literals the code introduces not explored); SVD equivariance under permutations; known findings: SparsePCA has no sign convention, complex modes are fixed only up to a phase; list items with the sample dim at different positions (C02); bounded: 59 (quick) / 75 (thorough) relational runs",
                 ref="5/C07"),
+    "C03": dict(level="proof", technique="contract-based deductive verification: real Scaler inside the real chain (z3 on the generic element, 16 flag combinations), real BaseModelSingleSet / BaseModelCrossSet transform/inverse_transform/scores/components with the chain replaced by its contract, real EOF/CPCCA algorithms against SVD_k (full-rank clauses), Whitener/PCA maps; normaliser + z3; bounded real reconstructions as labelled stand-in",
+                text="inverse_transform_data(transform(X)) = X and the direct Scaler postcondition for all 16 combinations of centring/standardisation/latitude weights/user weights; full-mode reconstruction from the model's own scores = the fitted matrix for EOF/ComplexEOF; transform(inverse_transform(s)) = s for arbitrary scores for EOF/ComplexEOF and the CPCCA family (real/complex, alpha=1 and whitened, X-only / Y-only / both, PCA included); normalized switches of scores/components/transform/inverse_transform = the per-mode norms; Whitener/PCA maps inverse. Hilbert models, cross-set exact reconstruction and the whole public path are bounded runs.",
+                note="assumed: Preprocessor = identity on 2-d matrices at the model level (proved structurally under C02/C05), SVD_k (C01), PCA/Whitener fit contracts (C16), std/coslat > 0 and weights != 0, reals for floats; bounded: 58 (quick) / ~100 (thorough) real models",
+                ref="5/C03"),
 }
 NA_REASON = "no check registered yet in this snapshot of /verif (build in progress; see DESIGN.md section 5 for the plan)"
 
